@@ -138,4 +138,74 @@ def WF (S : Schema) : Bool :=
   allDistinct (S.map (·.1)) &&
   S.all (fun nt => match nt.2 with | .struct d => wfStruct S nt.1 d | _ => true)
 
+/-! ### what decode-encode-decode stability needs in addition (`WFD`)
+
+`decode` is lenient; for whatever it accepts to be admissible and to encode again, the derived members
+must be tied to the members they describe in both directions. -/
+
+def widthOk : FK → Bool
+  | .int w _ | .reserved w _ _ | .sizeF w | .count w _ _ _ | .byteSize w _ _ | .sizeOf w _ _ | .sizeRef w _ _ _ =>
+    decide (0 < w)
+  | _ => true
+
+def isStructType (S : Schema) (ty : String) : Bool :=
+  match S.find ty with
+  | some (.struct _) => true
+  | _ => false
+
+/-- the member described by a derived member, seen from the derived member -/
+def wfdKind (S : Schema) (d : StructDef) (f : Field) : Bool :=
+  match f.kind with
+  | .count _ _ t a =>
+    (match lookupField d.fields t with
+      | some tf =>
+        (match tf.kind with
+          | .array _ (.count cf) _ _ _ => cf == f.name
+          | .barray sf => sf == f.name
+          | _ => false) &&
+        (match tf.cond with
+          | none => true
+          | some c => (match a with
+            | some av => c.field == f.name && c.op == .ne && c.value == av
+            | none => false))
+      | none => false)
+  | .byteSize _ _ t | .sizeOf _ _ t => refOk d.fields t (fun _ => true)
+  | .sizeRef _ _ t delta =>
+    decide (0 ≤ delta) &&
+    (match lookupField d.fields t with
+      | some tf => (match tf.kind with | .ref ty _ => isStructType S ty && posSize S ty | _ => false)
+      | none => false)
+  | .array _ mode _ _ key => key.isNone || (match mode with | .count _ => true | _ => false)
+  | _ => true
+
+/-- the condition of a member, seen from the member -/
+def wfdCond (d : StructDef) (f : Field) : Bool :=
+  match f.cond with
+  | none => true
+  | some c =>
+    (!c.viaSelf || f.kind.isBarray) &&
+    (match lookupField d.fields c.field with
+      | some cf => (match cf.kind with
+        | .sizeRef _ _ t _ => t == f.name && c.op == .ne && c.value == 0 && !c.viaSelf
+        | _ => true)
+      | none => false)
+
+def wfdStruct (S : Schema) (d : StructDef) : Bool :=
+  d.fields.all (fun f => widthOk f.kind && wfdKind S d f && wfdCond d f)
+
+def WFD (S : Schema) : Bool :=
+  S.all (fun nt => match nt.2 with
+    | .int w _ => decide (0 < w)
+    | .enum w _ _ _ => decide (0 < w)
+    | .struct d => wfdStruct S d
+    | _ => true)
+
+/-- no member is laid out before its discriminant (first stage of the decode-side proof) -/
+def earlyFrom : List Field → List Field → Bool
+  | _, [] => true
+  | pre, f :: rest =>
+    (match f.cond with | some c => (lookupField pre c.field).isSome | none => true) && earlyFrom (pre ++ [f]) rest
+
+def StructDef.noUnion (d : StructDef) : Bool := earlyFrom [] d.fields
+
 end SymbolVerif.Codec
